@@ -515,6 +515,9 @@ def fam_tree(seed, i):
     for x in nodes:
         # (a parent may still talk to its children from stopped(): they are held until it has terminated)
         cfg = {"cap": rng.choice([-1, -1, 1, 2]), "pscr": [Y] * rng.choice([0, 1]) + ([eff(rng.choice(["broadcast_unit", "broadcast_bc", "broadcast_bc2"]))] if rng.random() < 0.25 else []), "sscr": [[]]}
+        if x != "a1" and x not in parent.values() and rng.random() < 0.2:
+            # a leaf that runs on a stream which never ends: released with its parent like any other child
+            cfg.update({"stream": True, "strat": "none", "items0": rng.choice([0, 0, 2]), "ended0": False, "iscr": [Y] * rng.choice([0, 1]), "fscr": []})
         main.append({"op": "spawn", "a": x, "nh": f"r_{x}", "cfg": cfg, "entry": "builder"})
     late = {}           # children registered by a message instead of in started
     for x in nodes[1:]:
@@ -549,7 +552,8 @@ def fam_tree(seed, i):
             if fault == "start_err" and x == "a1" and rng.random() < 0.5:
                 s0 = s0 + [eff("err")]
             o["cfg"]["sscr"] = [s0]
-            o["cfg"]["strat"] = rng.choice(["restart", "restart", "recreate"])
+            if not o["cfg"].get("stream"):
+                o["cfg"]["strat"] = rng.choice(["restart", "restart", "recreate"])
     # the root (and sometimes inner nodes) is held by clients
     for c in cl:
         main.append({"op": "clone", "h": "r_a1", "nh": f"h_{c}", "to": c})
@@ -604,8 +608,10 @@ def registry_respawn(sc, rng, types):
     elif kill == "panic":
         c1.append({"op": "send", "h": h, "scr": [Y] * rng.choice([0, 1]) + [eff("panic")]})
     c1 += [{"op": "yield"}] * rng.randint(1, 3)
+    probes_only = rng.random() < 0.3        # nothing respawns: what the probes say (and do not do) about a dead entry
     for _ in range(rng.randint(1, 4)):
-        op = rng.choice(["setup", "setup", "from_registry", "try_from_registry", "already_running", "register", "spawn_register", "unregister"])
+        op = rng.choice(["try_from_registry", "already_running", "try_from_registry", "already_running", "unregister", "register"] if probes_only else
+                        ["setup", "setup", "from_registry", "try_from_registry", "already_running", "register", "spawn_register", "unregister"])
         if op == "setup":
             c1.append({"op": "setup", "ty": ty})
         elif op in ("from_registry", "try_from_registry", "unregister"):
